@@ -213,6 +213,14 @@ class _TS:
 class FakePd:
     Timestamp = _TS
 
+    @staticmethod
+    def DateOffset(days=0, **kw):  # wall-clock and elapsed days coincide in the shim's timezone-free model
+        return timedelta(days=days)
+
+    @staticmethod
+    def Timedelta(days=0, **kw):
+        return timedelta(days=days)
+
 
 class FakeNp:
     nan = NAN
